@@ -93,6 +93,15 @@ def runProducers (d : Db) (kv : List (String × String)) : Db × List Nat × Str
 def streamRanges (kv : List (String × String)) : List KeyRange :=
   splitRanges (hexList (argStr kv "splits"))
 
+/-- `levelHandler.initTables` on Open: level 0 is ordered by file id (deeper levels by key). -/
+def insertById (t : Tbl) : List Tbl → List Tbl
+  | [] => [t]
+  | x :: xs => if t.id < x.id then t :: x :: xs else x :: insertById t xs
+
+def reopenLevels : List (List Tbl) → List (List Tbl)
+  | [] => []
+  | l0 :: rest => l0.foldr insertById [] :: rest.map sortBySmallest
+
 def maxVerOfLsm (l : Lsm) : Nat := l.allEntries.foldl (fun m e => if m < e.ver then e.ver else m) 0
 
 def streamStep (s : StreamDrv) (line : String) : StreamDrv × String :=
@@ -110,9 +119,10 @@ def streamStep (s : StreamDrv) (line : String) : StreamDrv × String :=
     match n.toNat? with
     | some n => if s.dbs.any (·.1 == n) then ({ s with cur := n }, "ok") else (s, "bad-op")
     | none => (s, "bad-op")
-  | ["reopen"] =>
+  | "reopen" :: rest =>
     let d := s.db
-    let lsm := d.lsm.flush
+    let lsm := d.lsm.flush (argNat (kvArgs rest) "id" 0)
+    let lsm := { lsm with levels := reopenLevels lsm.levels }
     let maxV := maxVerOfLsm lsm
     let d' : Db := { opts := d.opts, lsm := lsm, nextTs := maxV + 1, readMark := (({} : Wm).done maxV), now := d.now }
     (s.setDb d', s!"ok next={maxV + 1}")
@@ -172,7 +182,14 @@ def streamStep (s : StreamDrv) (line : String) : StreamDrv × String :=
     | none => (s, "bad-op")
     | some st =>
       let kv := kvArgs rest
-      match s.db.swFlush st (natList (argStr kv "out")) with
+      -- `out=id:count,…`: the tables the implementation produced, in level order
+      let news := (if argStr kv "out" == "" then [] else (argStr kv "out").splitOn ",").filterMap (fun w =>
+        match w.splitOn ":" with
+        | [i, c] => match i.toNat?, c.toNat? with
+          | some i, some c => some (i, c)
+          | _, _ => none
+        | _ => none)
+      match s.db.swFlush st (news.map (·.2)) (news.map (·.1)) with
       | none => ({ s with sw := none }, s!"mismatch model-new={st.newEnts.length} " ++
           String.intercalate "," (st.newEnts.map fmtEnt))
       | some (d, valid) =>
